@@ -358,3 +358,29 @@ Example C10_example_listing :
                       (0, "sub.my-task", ["sub"; "sub.al-x"], Some 2);
                       (0, "sub.in-ner.deep", ["sub.in-ner"], Some 3)].
 Proof. eexists. split; [vm_compute; reflexivity|]. repeat split; vm_compute; reflexivity. Qed.
+
+(** The JSON listing ([Collection.serialized]) of every tree, any depth, in
+    which every task is bound by its own normalised name and every
+    sub-collection by its own name ([own_named]: the guard that excludes
+    F-C10c), read back the way the specification reads it ([json_shown]),
+    shows, up to the order of lines, the bindings of the tree. *)
+Theorem C10_json_listing_partial :
+  forall c, ns_wf c = true -> own_named c = true -> alias_table_own c = true ->
+  exists ents, Permutation (json_shown (json_rows c 0) []) ents /\
+               Forall2 entry_agrees ents (rel_expected c).
+Proof. exact json_listing_spec. Qed.
+
+Example C10_example_json_listing :
+  exists c,
+    build (ISub None true (Node [("k", Node [("x", Leaf (VInt 0))])])
+                [ITask (mkTask 1 "top" ["t_al"] false) None [] None;
+                 ISub (Some "sub") true (Node [("k", Node [("y", Leaf (VInt 1))])])
+                      [ITask (mkTask 2 "my_task" ["al_x"] false) None [] (Some true);
+                       ISub (Some "in_ner") true (Node [])
+                            [ITask (mkTask 3 "deep" [] false) None [] (Some true)] None false]
+                      None true] None false) = Ok c /\
+    ns_wf c = true /\ own_named c = true /\ alias_table_own c = true /\
+    json_shown (json_rows c 0) [] =
+      [([], "top", 1, ["t-al"]); (["sub"], "my-task", 2, ["al-x"]);
+       (["sub"; "in-ner"], "deep", 3, [])].
+Proof. eexists. split; [vm_compute; reflexivity|]. repeat split; vm_compute; reflexivity. Qed.
